@@ -318,7 +318,8 @@ class Formatter:
             return self.format_empty_string(arg)
         if re.search(r"[\"']", arg):  # contains a nested string
             return self.format_string_with_nested_string(arg)
-        if re.search(r"[\s:/\\;,{}()<>\[\]]", arg):  # contains spaces, path or delimiters -> complex string
+        if re.search(r"[\s:/\\;,{}()<>\[\]]|^#include", arg):
+            # contains spaces, path or delimiters, or starts like an include directive -> complex string
             return self.format_multi_word_string(arg)
         # single word string
         return self.format_single_word_string(arg)
